@@ -34,5 +34,9 @@ func (r *decoderRefer) Read(i int) interface{} {
 }
 
 func (r *decoderRefer) Reset() {
+	// a recycled decoder must not keep what its last user has decoded alive
+	for i := range r.ref {
+		r.ref[i] = nil
+	}
 	r.ref = r.ref[:0]
 }
